@@ -214,6 +214,12 @@ def run(ctx):
                        'wait is invalidated (or read afresh from the clock) on every path -- error returns such as EINTR included -- '
                        'before the function that called the poll method returns; otherwise the '
                        'loop judges its timers and computes the next sleep from the time before the wait and sleeps the whole interval again', floor=3)
+    ctx.rule('R-C07i', 'blocks in the kernel only when nothing is due (3): the deadline iv_main asks the timer module for is the expiry '
+                       'of the earliest registered timer after EVERY history of iv_timer_register / iv_timer_unregister (any timer of the '
+                       'store cancelled or re-armed, not only the soonest or the newest), and the runner takes the due timers off in that '
+                       'order; decided by evaluating the public timer calls on states over bounded histories, observed through the '
+                       'deadline query exactly as iv_main observes it (shared with C04 R-C04h)', floor=15)
+    ctx.section(lambda c: __import__('ivy.rules.c04', fromlist=['x']).earliest(c, 'R-C07i'))
     covered = Coverage()
     ctx.section(wakeup_clock, prog)
     ctx.section(balance, covered)
